@@ -12,12 +12,34 @@ def variants(k):
     return [v + [k * 16 + i] for i, v in enumerate(base)]
 
 
+DEFAULT_STACK = 131072      # g_attr.stacksize default (Generated/Consts.defStackSize); only used for overlap checks
+
+
+def stress(res, pid, secs=3):
+    """free-running stress with real parallelism (violations that are data races between workers
+    cannot be exhibited by the sequentially consistent controller)"""
+    exe, err = sched_common.build_prog("stress_prog")
+    if err:
+        res.brk("build", err)
+        return
+    import os as _os
+    for w in (16, 8):
+        rc, out, e = common.sh([exe, str(w), str(secs), str(res.seed)], timeout=120 + secs)
+        m = re.search(r"^RESULT (\w+) (.*)$", out, re.M)
+        res.notes.setdefault("stress", []).append((m.group(0) if m else "rc=%s %s" % (rc, (out + e)[-160:]))[:200])
+        if not m or m.group(1) != "ok":
+            p = common.write_replay(pid, "stress.txt", "stress_prog %d %d %d  (free-running, not exactly replayable: rerun a few times)\n%s\n" % (w, secs, res.seed, (out + e)[-600:]))
+            res.violations.append((p, True, "free-running fork-join stress with %d workers: %s" % (w, m.group(2) if m else "crashed / aborted: " + (out + e)[-200:].replace("\n", " "))))
+            return
+
+
 def ledger_oracle(logpath):
     """property oracle on the implementation's own allocation events: a block handed out must not
     be in use, a release must be of a block in use, stack tops 16-byte aligned inside a page-rounded
     block, and at quiescence nothing is left in use (every thread reaped exactly once)."""
     inuse = {"DESC": {}, "STACK": {}}
     want = {}
+    ranges = {}
     for n, line in enumerate(open(logpath), 1):
         w = line.split()
         if len(w) < 8 or w[0] != "ev":
@@ -30,6 +52,15 @@ def ledger_oracle(logpath):
             want[raw] = (int(w[6]) + 4095) // 4096 * 4096 if int(w[6]) else 0
         if pt == "STACK_FREE" and raw in want and int(w[6]) != want[raw]:
             return "line %d: stack block %s was obtained for %d bytes but is released with recorded size %s: the block start recovered from the size word is wrong (block leaks / overlaps its neighbour)" % (n, raw, want[raw], w[6])
+        if pt == "STACK_GET":
+            top = int(raw[1:], 16) + 16
+            size = want[raw] if want[raw] else DEFAULT_STACK
+            for r2, (lo2, hi2, n2) in ranges.items():
+                if r2 != raw and top - size < hi2 and lo2 < top:
+                    return "line %d: stack [%x,%x) handed out overlaps the live stack [%x,%x) handed out at line %d" % (n, top - size, top, lo2, hi2, n2)
+            ranges[raw] = (top - size, top, n)
+        if pt == "STACK_FREE":
+            ranges.pop(raw, None)
         if pt.endswith("GET"):
             if raw in inuse[kind]:
                 return "line %d: %s block %s handed out while still in use (since line %d)" % (n, kind.lower(), raw, inuse[kind][raw])
@@ -61,7 +92,6 @@ def campaign(res, pid, drivers, n):
             if bad:
                 tag = fn[:-4]
                 r = {"sched": os.path.join(work, tag + ".sched"), "log": os.path.join(work, fn)}
-                args = res.cov["samples"][0]["args"] if res.cov["samples"] else ["life_prog"]
                 # recover the exact args of this run from the run index
                 idx = int(re.sub(r"\D", "", tag) or 0)
                 v = variants(res.seed)
@@ -69,3 +99,6 @@ def campaign(res, pid, drivers, n):
                 res.violations.append((d, True, "allocation ledger: " + bad))
                 return
     res.notes["ledger_traces_checked"] = nled
+    # real parallelism: always in the thorough tier, and whenever something is broken
+    if res.tier == "thorough" or res.breaks:
+        stress(res, pid, secs=4 if res.tier == "quick" else 10)
